@@ -14,6 +14,14 @@
 // All decisions are event-ordered: servers answer (or cancel the context, or close the connection) when the
 // request arrives; speculative runs hold every request until the harness releases one. The only clocks are the
 // driver's own request timeout for the "never answered" fate (3 s, at most one per scenario) and watchdogs.
+//
+// Idempotence is a flag per QUERY and per BATCH ENTRY (op field: one 0/1 per entry, every position pattern of 0..5
+// entries): a statement that is not idempotent must run as one execution whatever speculative policy it carries —
+// in `ex` such statements also get a policy whose delay elapses at once (the trace must still be the plain retry
+// loop's), in `spec` the single request is held while a wrongly started speculation would bring more (conc.go).
+// Concurrent executions of one statement (conc.go: `spec`, `specr`) are judged on counts read at quiescence; the
+// answers of all outstanding executions are released at the same instant (barrier) or at once, so that attempts of
+// several executions complete — and are counted — together.
 package main
 
 import (
@@ -352,8 +360,8 @@ type scenario struct {
 	policy string
 	polAt  string // s: session level ; q: statement level ; o: statement level over a session-level decoy
 	obs    string // - | s | q | o
-	idem   string // 0 | 1 | m (batch with mixed entries: not idempotent)
-	sp     string // - | K : SimpleSpeculativeExecution{K, 1h}
+	idem   string // query: 0 | 1 ; batch: one 0/1 per entry in order, "-" = no entries (idempotent iff every entry is)
+	sp     string // - | K : SimpleSpeculativeExecution{K, 1h} | Kf : SimpleSpeculativeExecution{K, 1µs} (non-idempotent statements only)
 	ctx    string // - | c | d | p | pd
 	cons   int    // initial consistency
 	api    string // e: Exec / ExecuteBatch ; i: Iter().Close()
@@ -525,10 +533,15 @@ func buildStmt(s *gocql.Session, d scenario, ctx context.Context, stmtObs *recor
 	var sp gocql.SpeculativeExecutionPolicy
 	if d.sp != "-" {
 		var k int
-		fmt.Sscan(d.sp, &k)
-		// the delay never elapses: the statement takes the speculative code path (executions as goroutines,
-		// results channel) with the main execution only
+		fmt.Sscan(strings.TrimSuffix(d.sp, "f"), &k)
+		// K: the delay never elapses: an idempotent statement takes the speculative code path (executions as
+		// goroutines, results channel) with the main execution only. Kf ("fast", only on statements that are NOT
+		// idempotent): the delay elapses at once — the statement must not be speculated, so the executor never gets
+		// to start the timer; if it did, K more executions would be under way before the first answer is back
 		sp = &gocql.SimpleSpeculativeExecution{NumAttempts: k, TimeoutDelay: time.Hour}
+		if strings.HasSuffix(d.sp, "f") {
+			sp = &gocql.SimpleSpeculativeExecution{NumAttempts: k, TimeoutDelay: time.Microsecond}
+		}
 	}
 	if d.kind == "q" {
 		q := s.Query("PING c13")
@@ -560,13 +573,9 @@ func buildStmt(s *gocql.Session, d scenario, ctx context.Context, stmtObs *recor
 		b = b.WithContext(ctx)
 	}
 	b.SetConsistency(gocql.Consistency(d.cons))
-	n := 1 + len(d.hosts)%3
-	if d.idem == "m" && n < 2 {
-		n = 2
-	}
-	for i := 0; i < n; i++ {
+	for i, f := range entryFlags(d.idem) {
 		b.Query(fmt.Sprintf("UPDATE c13 SET v = %d WHERE k = %d", i, i))
-		b.Entries[i].Idempotent = d.idem == "1" || (d.idem == "m" && i != n-1)
+		b.Entries[i].Idempotent = f
 	}
 	if d.polAt != "s" {
 		b = b.RetryPolicy(makePolicy(d.policy))
@@ -980,248 +989,35 @@ func specStmt(s *gocql.Session, kind string, idem string, sp gocql.SpeculativeEx
 		return &stmt{s: s, q: s.Query("PING spec").Idempotent(idem == "1").SetSpeculativeExecutionPolicy(sp).RetryPolicy(rp)}
 	}
 	b := s.NewBatch(batchType(kind))
-	n := 2
-	for i := 0; i < n; i++ {
+	for i, f := range entryFlags(idem) {
 		b.Query(fmt.Sprintf("UPDATE spec SET v = %d WHERE k = %d", i, i))
-		b.Entries[i].Idempotent = idem == "1" || (idem == "m" && i == 0)
+		b.Entries[i].Idempotent = f
 	}
 	return &stmt{s: s, b: b.SpeculativeExecutionPolicy(sp).RetryPolicy(rp)}
 }
 
-// runSpec: every host HOLDS the request it receives. The harness waits (without deciding anything on it) until
-// the executions the policy allows have reached servers, then lets exactly one host answer: that answer must be
-// the caller's result; the number of requests must not exceed the executions allowed. Returns the trace op.
-func runSpec(kind, idem string, a int, nhosts int, allGone bool, r *vh.Rng) string {
-	var ips []string
-	for i := 1; i <= nhosts; i++ {
-		ips = append(ips, fmt.Sprintf("10.0.0.%d", i))
-	}
-	cl := memcluster.NewCluster(4, ips...)
-	var mu sync.Mutex
-	type held struct {
-		ip  string
-		req *memcluster.Request
-	}
-	var arrived []held
-	arrival := make(chan struct{}, 64)
-	for ip, n := range cl.Nodes {
-		ip := ip
-		n.Handle = func(req *memcluster.Request) {
-			mu.Lock()
-			arrived = append(arrived, held{ip, req})
-			mu.Unlock()
-			select {
-			case arrival <- struct{}{}:
-			default:
-			}
+// entryFlags: the idempotence flag of every entry of a batch, from the scenario's pattern (one 0/1 per entry, in
+// order; "-" = a batch without entries)
+func entryFlags(idem string) []bool {
+	var out []bool
+	for _, c := range idem {
+		if c == '0' || c == '1' {
+			out = append(out, c == '1')
 		}
 	}
-	cfg := sess.Config(cl, 4, ips...)
-	cfg.Timeout = 20 * time.Second
-	pol := &scriptPolicy{hosts: map[string]*gocql.HostInfo{}, order: append([]string{}, ips...)}
-	cfg.PoolConfig.HostSelectionPolicy = pol
-	s, err := cfg.CreateSession()
-	if err != nil {
-		return "fatal:" + err.Error()
-	}
-	defer s.Close()
-	if !sess.WaitConns(s, nhosts, 20*time.Second) {
-		return "fatal:connections not established"
-	}
-	if allGone {
-		for _, n := range cl.Nodes {
-			n.DialHook = func(*memcluster.Node, int) error { return errors.New("memcluster: host unreachable") }
-		}
-		for k := 0; k < 10000 && len(gocql.VerifSessionConns(s)) > 0; k++ {
-			for _, sc := range allServerConns(cl) {
-				sc.Close()
-			}
-			time.Sleep(2 * time.Millisecond)
-		}
-		if len(gocql.VerifSessionConns(s)) > 0 {
-			return "fatal:connections did not go away"
-		}
-		nhosts = 0
-	}
-	st := specStmt(s, kind, idem, &gocql.SimpleSpeculativeExecution{NumAttempts: a, TimeoutDelay: time.Duration(1+r.Intn(3)) * time.Millisecond}, nil)
-	errc := make(chan error, 1)
-	var got string
-	go func() {
-		if st.q != nil {
-			errc <- st.q.Scan(&got) // the row names the host that answered
-		} else {
-			errc <- st.exec("e")
-		}
-	}()
-	// on the unchanged code exactly min(want, nhosts) requests arrive; when want > nhosts the execution that finds
-	// the shared iterator exhausted delivers ErrNoConnections by itself
-	want := maxExecutions(idem == "1", a)
-	// wait for the executions to reach the servers (or for a result that needs no answer); the wait only shapes
-	// the schedule, no verdict depends on it
-	var resErr error
-	haveRes := false
-	grace := time.After(2 * time.Second)
-wait:
-	for {
-		mu.Lock()
-		n := len(arrived)
-		mu.Unlock()
-		if n >= want && want > 0 {
-			break
-		}
-		select {
-		case resErr = <-errc:
-			haveRes = true
-			break wait
-		case <-arrival:
-		case <-grace:
-			break wait
-		}
-	}
-	released := "none"
-	if !haveRes {
-		mu.Lock()
-		if len(arrived) > 0 {
-			h := arrived[r.Intn(len(arrived))]
-			released = h.ip
-			if kind == "q" {
-				h.req.Conn.Reply(h.req.Stream, memcluster.OpResult, memcluster.RowsBody(
-					[]memcluster.Col{{Name: "h", Type: memcluster.TVarchar}}, [][][]byte{{[]byte(h.ip)}}, nil, false))
-			} else {
-				h.req.Conn.Reply(h.req.Stream, memcluster.OpResult, memcluster.VoidBody())
-			}
-		}
-		mu.Unlock()
-		select {
-		case resErr = <-errc:
-		case <-time.After(watchdog):
-			dumpGoroutines("speculative statement: no result after " + watchdog.String())
-			mu.Lock()
-			n := len(arrived)
-			mu.Unlock()
-			atomic.AddInt64(&hung, 1)
-			return fmt.Sprintf("spec %s %s %d %d %d 0 %s hang", kind, idem, a, nhosts, n, released)
-		}
-	}
-	result := ""
-	switch {
-	case resErr == nil:
-		// the only answer any server gave is the released one
-		result = released
-		if st.q != nil {
-			result = got
-		}
-	case resErr == gocql.ErrNoConnections:
-		// an execution that found the shared host iterator exhausted completed first
-		result = "noconn"
-	default:
-		return fmt.Sprintf("fatal:%v kind=%s idem=%v a=%d nhosts=%d conns=%d pool=%v", resErr, kind, idem, a, nhosts, len(gocql.VerifSessionConns(s)), gocql.VerifPoolState(s))
-	}
-	// executions still being launched would have been cancelled with the result; count what did arrive
-	time.Sleep(5 * time.Millisecond)
-	mu.Lock()
-	n := len(arrived)
-	perHost, most := map[string]int{}, 0
-	for _, h := range arrived {
-		perHost[h.ip]++
-		if perHost[h.ip] > most {
-			most = perHost[h.ip]
-		}
-	}
-	mu.Unlock()
-	return fmt.Sprintf("spec %s %s %d %d %d %d %s %s", kind, idem, a, nhosts, n, most, released, result)
+	return out
 }
 
-// runSpecRetry: idempotent statement, speculative policy with a tiny delay, retry policy, every host answers every
-// request with an error after a tiny pause: the executions retry concurrently, reading and bumping the ONE attempt
-// counter of the statement. Whatever the interleaving, the total number of requests stays within
-// lim + executions (Lean: C13_shared_counter_budget). Returns the trace op.
-func runSpecRetry(kind, policy string, a, nhosts int, fates []string, r *vh.Rng) string {
-	var ips []string
-	for i := 1; i <= nhosts; i++ {
-		ips = append(ips, fmt.Sprintf("10.0.0.%d", i))
-	}
-	cl := memcluster.NewCluster(4, ips...)
-	var nreq int64
-	var wg sync.WaitGroup
-	var pmu sync.Mutex
-	perHost := map[string]int{}
-	pauses := make([]time.Duration, 64)
-	for i := range pauses {
-		pauses[i] = time.Duration(r.Intn(1500)) * time.Microsecond
-	}
-	for ip, n := range cl.Nodes {
-		ip := ip
-		n.Handle = func(req *memcluster.Request) {
-			k := int(atomic.AddInt64(&nreq, 1)) - 1
-			pmu.Lock()
-			perHost[ip]++
-			pmu.Unlock()
-			f := fates[k%len(fates)]
-			wg.Add(1)
-			go func() {
-				defer wg.Done()
-				time.Sleep(pauses[k%len(pauses)])
-				if op, body, ok := fateBody(f); ok {
-					req.Conn.Reply(req.Stream, op, body)
-				}
-			}()
+// specIdempotent: what the documentation says about the statement (a query: its flag; a batch: every entry is).
+// Used to choose scenarios and to shape schedules only; the verdicts come from the Lean model, which computes the
+// same from the pattern in the op line.
+func specIdempotent(idem string) bool {
+	for _, f := range entryFlags(idem) {
+		if !f {
+			return false
 		}
 	}
-	cfg := sess.Config(cl, 4, ips...)
-	cfg.Timeout = 20 * time.Second
-	pol := &scriptPolicy{hosts: map[string]*gocql.HostInfo{}, order: append([]string{}, ips...)}
-	cfg.PoolConfig.HostSelectionPolicy = pol
-	s, err := cfg.CreateSession()
-	if err != nil {
-		return "fatal:" + err.Error()
-	}
-	defer s.Close()
-	if !sess.WaitConns(s, nhosts, 20*time.Second) {
-		return "fatal:connections not established"
-	}
-	st := specStmt(s, kind, "1", &gocql.SimpleSpeculativeExecution{NumAttempts: a, TimeoutDelay: time.Duration(100+r.Intn(900)) * time.Microsecond}, makePolicy(policy))
-	errc := make(chan error, 1)
-	go func() { errc <- st.exec("e") }()
-	var resErr error
-	select {
-	case resErr = <-errc:
-	case <-time.After(watchdog):
-		dumpGoroutines("speculative statement with retries: no result after " + watchdog.String())
-		atomic.AddInt64(&hung, 1)
-		return fmt.Sprintf("specr %s %s %d %d %d 0 hang", kind, policy, a, nhosts, atomic.LoadInt64(&nreq))
-	}
-	// executions that were not cancelled with the result (a batch's are not) finish their retries: wait until the
-	// request count is quiet (stopping early can only under-count, never raise an alarm)
-	last, quiet := int64(-1), 0
-	for i := 0; i < 400 && quiet < 6; i++ {
-		time.Sleep(5 * time.Millisecond)
-		if v := atomic.LoadInt64(&nreq); v == last {
-			quiet++
-		} else {
-			last, quiet = v, 0
-		}
-	}
-	wg.Wait()
-	result := "ok"
-	switch {
-	case resErr == nil:
-	case resErr == gocql.ErrNoConnections:
-		result = "noconn"
-	case resErr == gocql.ErrUnknownRetryType:
-		result = "unknownrt"
-	default:
-		result = fmt.Sprintf("err%d", errKind(resErr))
-	}
-	most := 0
-	pmu.Lock()
-	for _, v := range perHost {
-		if v > most {
-			most = v
-		}
-	}
-	pmu.Unlock()
-	return fmt.Sprintf("specr %s %s %d %d %d %d %s", kind, policy, a, nhosts, atomic.LoadInt64(&nreq), most, result)
+	return true
 }
 
 // ---------------------------------------------------------------- ops
@@ -1279,6 +1075,79 @@ func genPolicy(r *vh.Rng) string {
 	return fmt.Sprintf("custom:%d:%s", r.Intn(5), tbl)
 }
 
+// genPattern: the idempotence flags of a batch's entries: 0..5 entries; all idempotent, none, or any mixture (the
+// non-idempotent entries anywhere: first, middle, last)
+func genPattern(r *vh.Rng) string {
+	n := 1 + r.Intn(5)
+	switch r.Intn(8) {
+	case 0:
+		return strings.Repeat("0", n)
+	case 1, 2, 3:
+		return strings.Repeat("1", n)
+	case 4:
+		if r.Intn(4) == 0 {
+			return "-" // a batch without entries (vacuously idempotent)
+		}
+	}
+	b := make([]byte, n)
+	for i := range b {
+		b[i] = "0111"[r.Intn(4)]
+	}
+	return string(b)
+}
+
+// allPatterns: every pattern of 1..5 entries, in a fixed order, preceded by the empty batch
+func allPatterns() []string {
+	out := []string{"-"}
+	for n := 1; n <= 5; n++ {
+		for v := 0; v < 1<<uint(n); v++ {
+			b := make([]byte, n)
+			for i := range b {
+				b[i] = '0' + byte(v>>uint(i)&1)
+			}
+			out = append(out, string(b))
+		}
+	}
+	return out
+}
+
+// idemGrid: every batch whose entries are not all idempotent (every position pattern of 1..5 entries) and the
+// non-idempotent query, each with a speculative policy whose delay elapses at once, a retry policy and failing
+// hosts — the same scenarios for every seed and tier. Such a statement runs as ONE execution: the requests, counters
+// and observer records are exactly those of the plain retry loop.
+func idemGrid() []scenario {
+	var out []scenario
+	pols := []struct {
+		policy string
+		fates  []string
+	}{
+		{"none", []string{"e9"}},
+		{"simple:2", []string{"e9", "e2", "o"}},
+		{"down:2.1", []string{"e7", "e9", "e1"}},
+		{"custom:3:rrrrrrrrrrr", []string{"e9", "e4", "e7", "o"}},
+		{"exp:1", []string{"e9b", "e9"}},
+	}
+	kinds := []string{"bl", "bu", "bc"}
+	n := 0
+	add := func(kind, idem string) {
+		x := pols[n%len(pols)]
+		d := scenario{kind: kind, ctor: "s", policy: x.policy, polAt: []string{"q", "s"}[n/2%2], obs: []string{"-", "q", "s"}[n%3],
+			idem: idem, sp: fmt.Sprintf("%df", 1+n%3), ctx: "-", cons: 4, api: "e", reps: 1 + n/3%2, outcomes: x.fates,
+			hosts: []string{"1:1:1", "2:1:1", "3:1:1", "4:1:1", "5:1:1"}}
+		out = append(out, d)
+		n++
+	}
+	for _, p := range allPatterns() {
+		if !specIdempotent(p) {
+			add(kinds[n%3], p)
+		}
+	}
+	add("q", "0")
+	add("q", "0")
+	add("q", "0")
+	return out
+}
+
 func genScenario(r *vh.Rng) scenario {
 	d := scenario{kind: []string{"q", "q", "bl", "bu", "bc"}[r.Intn(5)], ctor: "s", api: "e", reps: 1}
 	if d.kind == "q" {
@@ -1290,15 +1159,19 @@ func genScenario(r *vh.Rng) scenario {
 		if r.Intn(6) == 0 {
 			d.ctor = "n"
 		}
-		d.idem = []string{"0", "1", "1", "m"}[r.Intn(4)]
+		d.idem = genPattern(r)
 	}
 	d.policy = genPolicy(r)
 	d.polAt = []string{"s", "s", "q", "q", "q", "o"}[r.Intn(6)]
 	d.obs = []string{"-", "-", "-", "s", "q", "q", "o"}[r.Intn(7)]
 	d.sp = []string{"-", "-", "-", "0", "1", "2"}[r.Intn(6)]
+	if !specIdempotent(d.idem) {
+		// not to be speculated whatever the policy says: also with a delay that elapses at once
+		d.sp = []string{"-", "-", "0", "1", "2", "1f", "2f", "3f", "1f", "0f"}[r.Intn(10)]
+	}
 	d.ctx = []string{"-", "-", "c", "c", "c", "d", "d", "p", "pd"}[r.Intn(9)]
 	d.cons = consCodes[r.Intn(len(consCodes))]
-	specPath := d.idem == "1" && (d.sp == "1" || d.sp == "2")
+	specPath := specIdempotent(d.idem) && (d.sp == "1" || d.sp == "2")
 	if specPath && (d.ctx == "p" || d.ctx == "pd") {
 		// with the context done before the start the executor returns ctx.Err() without waiting for its
 		// execution goroutine: what that goroutine gets to do is a race, so it is not predicted here
@@ -1465,6 +1338,9 @@ func envGrid() []scenario {
 				for _, env := range envs {
 					d := scenario{kind: kinds[n%4], ctor: "s", policy: x.policy, polAt: []string{"q", "s"}[n/4%2], obs: []string{"-", "q", "s"}[n%3],
 						idem: "1", sp: "-", ctx: "-", cons: 4, api: "e", reps: 1 + n/2%2, outcomes: x.fates, env: env}
+					if d.kind != "q" {
+						d.idem = strings.Repeat("1", 1+n%3)
+					}
 					for h := 1; h <= nh; h++ {
 						d.hosts = append(d.hosts, fmt.Sprintf("%d:1:1", h))
 					}
@@ -1499,6 +1375,9 @@ func budgetGrid() []scenario {
 					for i := 0; i < 7; i++ {
 						d.outcomes = append(d.outcomes, x.fate)
 					}
+					if kind != "q" {
+						d.idem = strings.Repeat("1", 1+len(out)%4)
+					}
 					if kind != "q" && obs == "s" && polAt == "s" {
 						d.reps = 2 // the second execution finds the budget used up: exactly one more request
 					}
@@ -1511,6 +1390,10 @@ func budgetGrid() []scenario {
 }
 
 func main() {
+	if len(os.Args) > 1 && os.Args[1] == "probe" {
+		probe()
+		return
+	}
 	mode, tier, path := vh.Args()
 	if mode == "replay" {
 		for _, l := range vh.ReadLines(path) {
@@ -1524,7 +1407,7 @@ func main() {
 	if tier == "thorough" {
 		runs = 24000
 	}
-	scen := append(budgetGrid(), envGrid()...)
+	scen := append(append(budgetGrid(), envGrid()...), idemGrid()...)
 	for i := 0; i < runs; i++ {
 		d := genScenario(r)
 		// a third of the scenarios run in a changing environment, half of those bent towards same-host retries
@@ -1567,39 +1450,179 @@ func main() {
 		out.Case(d.op(), results[i], cls, len(d.hosts) > 0)
 	}
 	kinds := []string{"q", "bl", "bu", "bc"}
-	for i := 0; i < runs/64 && atomic.LoadInt64(&hung) == 0; i++ {
-		kind := kinds[r.Intn(len(kinds))]
-		idem := []string{"0", "1", "1", "1"}[r.Intn(4)]
-		if kind != "q" && r.Intn(5) == 0 {
-			idem = "m"
+	type specScn struct {
+		kind, idem string
+		a, nhosts  int
+		gone       bool
+	}
+	// every entry pattern of 0..5 entries (and both kinds of query) under a speculative policy — for every seed and tier
+	var specs []specScn
+	for i, p := range allPatterns() {
+		specs = append(specs, specScn{kinds[1+i%3], p, 1 + i%3, 2 + i/3%4, false})
+	}
+	for i := 0; i < 6; i++ {
+		specs = append(specs, specScn{"q", fmt.Sprint(i % 2), 1 + i/2, 2 + i%3, false})
+	}
+	for i := 0; i < runs/64; i++ {
+		c := specScn{kinds[r.Intn(len(kinds))], []string{"0", "1", "1", "1"}[r.Intn(4)], r.Intn(4), 1 + r.Intn(5), r.Intn(6) == 0}
+		if c.kind != "q" {
+			c.idem = genPattern(r)
 		}
-		op := runSpec(kind, idem, r.Intn(4), 1+r.Intn(5), r.Intn(6) == 0, r)
+		specs = append(specs, c)
+	}
+	for _, c := range specs {
+		if atomic.LoadInt64(&hung) != 0 {
+			break
+		}
+		op := runSpec(c.kind, c.idem, c.a, c.nhosts, c.gone, r)
 		if strings.HasPrefix(op, "fatal") {
 			fmt.Fprintln(os.Stderr, "c13:", op)
 			os.Exit(3)
 		}
-		out.Case(op, "accept", "spec/"+kind+"/idem="+idem, true)
+		cls := "spec/" + c.kind + "/not-idempotent"
+		if specIdempotent(c.idem) {
+			cls = "spec/" + c.kind + "/idempotent"
+		}
+		out.Case(op, "accept", cls, true)
 	}
-	for i := 0; i < runs/64 && atomic.LoadInt64(&hung) == 0; i++ {
-		kind := kinds[r.Intn(len(kinds))]
-		var policy string
-		var fates []string
-		switch r.Intn(4) {
-		case 0:
-			policy, fates = fmt.Sprintf("simple:%d", r.Intn(3)), []string{"e9", "e2", "e9b"}
-		case 1:
-			policy, fates = fmt.Sprintf("exp:%d", r.Intn(3)), []string{"e9"}
-		case 2:
-			policy, fates = "down:"+strings.Repeat("1.", r.Intn(3))+"1", []string{"e1", "e7", "e9", "e5"} // Retry (same host) and RetryNextHost
+	grid := specrGrid()
+	for i := 0; i < len(grid)+specrRuns(tier) && atomic.LoadInt64(&hung) == 0; i++ {
+		var c specrScn
+		if i < len(grid) {
+			c = grid[i]
+		} else {
+			c = genSpecr(r, i-len(grid))
+		}
+		op := runSpecRetry(c, r)
+		if strings.HasPrefix(op, "fatal") {
+			fmt.Fprintln(os.Stderr, "c13:", op)
+			os.Exit(3)
+		}
+		out.Case(op, "accept", "specr/"+c.kind+"/"+strings.SplitN(c.policy, ":", 2)[0]+"/"+c.mode, true)
+	}
+	out.Close(map[string]interface{}{"concurrent_attempts_counted": atomic.LoadInt64(&concAttempts),
+		"barrier_rounds": atomic.LoadInt64(&barRounds), "barrier_rounds_releasing_several_answers": atomic.LoadInt64(&barMulti)})
+}
+
+func specrRuns(tier string) int {
+	if tier == "thorough" {
+		return 1200
+	}
+	return 120
+}
+
+// specrGrid: every statement kind x observer attached or not x barrier / at-once answers, several executions and a
+// long sequence of same-host retries on the shared counter — the same scenarios for every seed and tier
+func specrGrid() []specrScn {
+	var out []specrScn
+	n := 0
+	for _, kind := range []string{"q", "bl", "bu", "bc"} {
+		for _, obs := range []bool{true, false} {
+			for _, mode := range []string{"b", "i"} {
+				c := specrScn{kind: kind, idem: "1", obs: obs, mode: mode, a: 2 + n%4, fates: []string{"e1", "e9", "e7", "e2"}}
+				if kind != "q" {
+					c.idem = strings.Repeat("1", 1+n%5)
+				}
+				lim := 300 + 40*(n%5)
+				if mode == "i" {
+					lim *= 3
+				}
+				c.policy = fmt.Sprintf("custom:%d:rrrrrrrrrrr", lim)
+				c.nhosts = 1 + c.a + n%2
+				out = append(out, c)
+				n++
+			}
+		}
+	}
+	return out
+}
+
+// genSpecr: a speculated statement whose executions all fail and retry. Modes: p = every answer after its own small
+// pause; b = barrier: the answers of ALL outstanding executions are released at the same instant, round after round;
+// i = answered at once (the executions hammer the shared counter as fast as they can).
+func genSpecr(r *vh.Rng, i int) specrScn {
+	c := specrScn{kind: []string{"q", "bl", "bu", "bc"}[r.Intn(4)], idem: "1", obs: r.Intn(2) == 0}
+	if c.kind != "q" {
+		c.idem = strings.Repeat("1", 1+r.Intn(5))
+	}
+	c.mode = []string{"p", "b", "b", "i"}[i%4]
+	if c.mode == "p" {
+		c.a = 1 + r.Intn(3)
+	} else {
+		c.a = 1 + r.Intn(5)
+	}
+	e := 1 + c.a
+	big := c.mode != "p"
+	pick := r.Intn(4)
+	if big {
+		pick = r.Intn(6) // half of the barrier / at-once runs: long retry sequences on the shared counter
+	}
+	switch pick {
+	case 0:
+		n := r.Intn(3)
+		if big {
+			n = r.Intn(7)
+		}
+		c.policy, c.fates = fmt.Sprintf("simple:%d", n), []string{"e9", "e2", "e9b"}
+		c.nhosts = n + e + r.Intn(2) // sometimes one host short of what the budget allows
+	case 1:
+		n := r.Intn(3)
+		c.policy, c.fates = fmt.Sprintf("exp:%d", n), []string{"e9"}
+		c.nhosts = n + e + r.Intn(2)
+	case 2:
+		n := 1 + r.Intn(3)
+		if big {
+			n = 1 + r.Intn(8)
+		}
+		c.policy, c.fates = "down:"+strings.Repeat("1.", n-1)+"1", []string{"e1", "e7", "e9", "e5"} // Retry (same host) and RetryNextHost
+		c.nhosts = e + 1 + (n+3)/4 + r.Intn(2)
+	default:
+		switch c.mode {
+		case "p":
+			c.policy, c.fates = fmt.Sprintf("custom:%d:%s", r.Intn(4), "nrnrnrnrnrn"), []string{"e1", "e9", "e7", "e2"}
+			c.nhosts = 7 + r.Intn(3)
+		case "b":
+			// mostly Retry on the same host: round after round, every execution completes an attempt at the same
+			// instant; with the occasional RetryNextHost the executions also drain the shared iterator
+			c.policy, c.fates = fmt.Sprintf("custom:%d:%s", 50+r.Intn(550), []string{"rrrrrrrrrrr", "rrrrrrrrrnr"}[r.Intn(2)]), []string{"e1", "e9", "e7", "e2", "e4"}
+			c.nhosts = e + 2 + r.Intn(3)
 		default:
-			policy, fates = fmt.Sprintf("custom:%d:%s", r.Intn(4), "nrnrnrnrnrn"), []string{"e1", "e9", "e7", "e2"}
+			c.policy, c.fates = fmt.Sprintf("custom:%d:%s", 100+r.Intn(900), "rrrrrrrrrrr"), []string{"e1", "e9", "e7", "e2"}
+			c.nhosts = e + r.Intn(2)
 		}
-		op := runSpecRetry(kind, policy, 1+r.Intn(3), 7+r.Intn(3), fates, r)
-		if strings.HasPrefix(op, "fatal") {
-			fmt.Fprintln(os.Stderr, "c13:", op)
-			os.Exit(3)
-		}
-		out.Case(op, "accept", "specr/"+kind+"/"+strings.SplitN(policy, ":", 2)[0], true)
 	}
-	out.Close(nil)
+	if c.nhosts < 2 {
+		c.nhosts = 2
+	}
+	if c.nhosts > 14 {
+		c.nhosts = 14
+	}
+	return c
+}
+
+// probe: development aid (not used by ./check): run the concurrent scenarios only and print their traces
+func probe() {
+	r := vh.NewRng(vh.EnvSeed())
+	n := 120
+	if len(os.Args) > 2 {
+		fmt.Sscan(os.Args[2], &n)
+	}
+	t0 := time.Now()
+	for i := 0; i < n; i++ {
+		c := genSpecr(r, i)
+		t := time.Now()
+		op := runSpecRetry(c, r)
+		fmt.Printf("%6.1fms %s\n", float64(time.Since(t).Microseconds())/1000, op)
+		if i%2 == 0 {
+			kind := []string{"q", "bl", "bu", "bc"}[r.Intn(4)]
+			idem := []string{"0", "1"}[r.Intn(2)]
+			if kind != "q" {
+				idem = genPattern(r)
+			}
+			t = time.Now()
+			op = runSpec(kind, idem, r.Intn(4), 1+r.Intn(5), r.Intn(6) == 0, r)
+			fmt.Printf("%6.1fms %s\n", float64(time.Since(t).Microseconds())/1000, op)
+		}
+	}
+	fmt.Printf("total %v attempts=%d rounds=%d multi=%d\n", time.Since(t0), concAttempts, barRounds, barMulti)
 }
